@@ -1,6 +1,7 @@
 """C03 - final results are complete and independent of schedule and batching."""
 
 import ast
+import re
 
 from .. import AnalysisError
 from ..cfg import ALL_KINDS, NORMAL_KINDS, iter_own
@@ -72,11 +73,23 @@ def c03_2(ctx, r):
         for n in ctx.nodes_of(sj, s.node):
             r.check(not ctx.cfg(sj).in_loop(n), "the completion step is not in a loop", key_of(sj, "completion in loop"), s.loc, "_handle_completion is called on a cycle")
             forms = guard_forms(ctx, sj, n)
-            r.check(("is_complete", True) in forms, "the completion step runs only when the round reported completion", key_of(sj, "completion guard"), s.loc, f"_handle_completion is guarded by {sorted(f for f, p in forms)}")
-    # both modes define is_complete: local True, HPC from _submit_to_hpc
+            # role: the guard is a local whose reaching definitions are `True` (local mode, after collection) / the result of _submit_to_hpc()
+            okc = False
+            for f, p in forms:
+                if p and re.fullmatch(r"\w+", f):
+                    defs = {ctx.src(ctx.rd(sj).defs_at[d].get(f)) for d in ctx.rd(sj).reaching(n, f) if isinstance(ctx.rd(sj).defs_at[d].get(f), ast.AST)}
+                    okc = okc or (bool(defs) and defs <= {"True", "self._submit_to_hpc(cluster)"} and "self._submit_to_hpc(cluster)" in defs)
+            r.check(okc, "the completion step runs only when the round reported completion", key_of(sj, "completion guard"), s.loc, f"_handle_completion is guarded by {sorted(f for f, p in forms)}")
+    # both modes define the completion flag (the guard local found above): local True, HPC from _submit_to_hpc
     cfg = ctx.cfg(sj)
-    defs = {ctx.src(n.ast.value) for n in cfg.nodes if n.kind == "stmt" and isinstance(n.ast, ast.Assign) and ctx.src(n.ast.targets[0]) == "is_complete"}
-    r.check(defs == {"True", "self._submit_to_hpc(cluster)"}, "is_complete = True (local) | _submit_to_hpc(cluster) (HPC)", key_of(sj, "is_complete sources"), sj.loc(), f"is_complete is defined from {sorted(defs)}")
+    okall = False
+    for s in ctx.some_sites(sj, "C03.2", short="JobSubmitter._handle_completion"):
+        for n in ctx.nodes_of(sj, s.node):
+            for f, p in guard_forms(ctx, sj, n):
+                if p and re.fullmatch(r"\w+", f):
+                    defs = {ctx.src(x.ast.value) for x in cfg.nodes if x.kind == "stmt" and isinstance(x.ast, ast.Assign) and ctx.src(x.ast.targets[0]) == f}
+                    okall = okall or defs == {"True", "self._submit_to_hpc(cluster)"}
+    r.check(okall, "completion flag = True (local) | _submit_to_hpc(cluster) (HPC)", key_of(sj, "is_complete sources"), sj.loc(), "the completion flag is not defined from exactly {True, self._submit_to_hpc(cluster)}")
     sh = ctx.fn("JobSubmitter._submit_to_hpc", "C03.2")
     for ret, conds, path in return_conditions(ctx, sh):
         val = ret.value if isinstance(ret, ast.Constant) else None
@@ -139,13 +152,18 @@ def missing_flow(ctx, r, rid):
                 r.check(any(p and "len(" in f and "==" in f for f, p in forms), "missing = [] only when the result count equals the job count", key_of(hc, "empty missing guard"), hc.loc(dn.ast),
                         f"missing_jobs = [] under {sorted(f for f, p in forms)}: missing jobs are silently dropped", "never ... silently dropped")
     # write_results_summary stores the list under 'missing_jobs' and the summary counts it
-    okk = any(isinstance(n, ast.Assign) and ctx.src(n.targets[0]).replace("'", '"') == 'data["missing_jobs"]' and ctx.src(n.value) == "missing_jobs" for n in iter_own(wrs.node))
+    dumps = [c for c in iter_own(wrs.node) if isinstance(c, ast.Call) and ctx.src(c.func).split(".")[-1] == "dump_data" and c.args and isinstance(c.args[0], ast.Name)]
+    DV = dumps[0].args[0].id if dumps else None
+    okk = any(isinstance(n, ast.Assign) and DV and ctx.src(n.targets[0]).replace("'", '"') == f'{DV}["missing_jobs"]' and ctx.src(n.value) == "missing_jobs" for n in iter_own(wrs.node))
     r.check(okk, "results.json['missing_jobs'] = the computed list", key_of(wrs, "missing key"), wrs.loc(), "write_results_summary does not store missing_jobs under the 'missing_jobs' key")
-    okr = any(isinstance(n, ast.Assign) and ctx.src(n.targets[0]).replace("'", '"') == 'data["results"]' for n in iter_own(wrs.node)) and any(
+    okr = any(isinstance(n, ast.Assign) and DV and ctx.src(n.targets[0]).replace("'", '"') == f'{DV}["results"]' for n in iter_own(wrs.node)) and any(
         isinstance(n, ast.Call) and ctx.src(n.func) == "serialize_results" and ctx.src(n.args[0]) == "self._results" for f2 in (ctx.fn("JobSubmitter._build_results"),) for n in iter_own(f2.node))
     r.check(okr, "results.json['results'] = every consolidated result", key_of(wrs, "results key"), wrs.loc(), "results.json no longer holds serialize_results(self._results)")
     # Status.ERROR when jobs are missing
-    errs = [n for n in cfg.nodes if n.kind == "stmt" and isinstance(n.ast, ast.Assign) and ctx.src(n.ast.targets[0]) == "result" and ctx.src(n.ast.value) == "Status.ERROR"]
+    from .common import completion_roles
+
+    _hc, RESULT, MISSING = completion_roles(ctx, "C03.3")
+    errs = [n for n in cfg.nodes if n.kind == "stmt" and isinstance(n.ast, ast.Assign) and ctx.src(n.ast.targets[0]) == RESULT and ctx.src(n.ast.value) == "Status.ERROR"]
     r.check(bool(errs), "a submission with missing jobs completes with Status.ERROR", key_of(hc, "status on missing"), hc.loc(), "missing jobs no longer turn the completion status into ERROR")
 
 
@@ -174,6 +192,25 @@ def c03_4(ctx, r):
         raise AnalysisError("C03.4", f"expected both answers (True x{trues}, False x{falses})")
     loops = [n for n in iter_own(fn.node) if isinstance(n, ast.For)]
     r.check(len(loops) == 1 and ctx.src(loops[0].iter) == "self.iter_jobs()", "the scan covers every job", key_of(fn, "scan domain"), fn.loc(), "the all-done scan does not iterate every job")
+    # True only after the scan ran to its end: no `return True` is reachable without crossing the loop's exhaustion edge
+    # (a shortcut on the counters answers True while a job is still submitted - the counters count results, not jobs)
+    cfg = ctx.cfg(fn)
+    if loops:
+        head = [n for n in cfg.nodes if n.kind == "for" and n.ast is loops[0]][0]
+        seen, stack = set(), [cfg.entry]
+        while stack:
+            x = stack.pop()
+            if x.id in seen:
+                continue
+            seen.add(x.id)
+            for d, k, _ in x.succ:
+                if k in NORMAL_KINDS and not (x is head and k == "done"):
+                    stack.append(d)
+        for n in cfg.nodes:
+            if n.kind == "stmt" and isinstance(n.ast, ast.Return) and isinstance(n.ast.value, ast.Constant) and n.ast.value.value is True:
+                r.check(n.id not in seen, "True is answered only after every job was examined", key_of(fn, "True without the full scan"), fn.loc(n.ast),
+                        "_are_all_jobs_complete can answer True without having scanned the job states to the end (a shortcut on counters or flags): completed_jobs counts recorded results, so a job that produced two "
+                        "results (requeued batch) makes the count reach num_jobs while another job is still running - the stage / submission is completed early", "completion flag is set only when every job has a result")
 
 
 @rule(P, "C03.5", "T2", "a round determines which batches are still active before it collects results", min_obligations=2)
